@@ -8,6 +8,7 @@ import MesonModel.Cargo.CfgLemmas
 import MesonModel.Cargo.BridgeLemmas
 import MesonModel.Cargo.LexLemmas
 import MesonModel.Cargo.CacheLemmas
+import MesonModel.Cargo.CfgTableLemmas
 import MesonModel.Generated.CargoCache
 
 namespace MesonModel.Props.C20
@@ -419,5 +420,57 @@ theorem merged_try_refuted :
   decide
 
 end Cache
+
+/-! ## The target-cfg table: memoised `_get_cfgs` over the memoised `RustCompiler.get_cfgs` -/
+
+section CfgTables
+open MesonModel.Cargo.CfgTable
+
+/-- no sequence of `_get_cfgs` calls (any keys, any `rust_args`) changes the list cached by the
+compiler's `get_cfgs` -/
+theorem cfg_table_base_invariant (rustArgs : Key → List Line) (host build : List Line) (ks : List Key) :
+    (run true rustArgs ⟨host, build, []⟩ ks).baseHost = host ∧
+    (run true rustArgs ⟨host, build, []⟩ ks).baseBuild = build := by
+  have h := run_ok rustArgs ⟨host, build, []⟩ ks ⟨host, build, []⟩ ⟨rfl, rfl, by intro k t hm; simp at hm⟩
+  exact ⟨h.1, h.2.1⟩
+
+/-- after any history, the table returned for a key is built from exactly the compiler's cfgs and
+that key's own `--cfg` flags: it depends on the key only -/
+theorem cfg_table_depends_on_key_only (rustArgs : Key → List Line) (host build : List Line)
+    (ks : List Key) (k : Key) :
+    (getCfgs true rustArgs (run true rustArgs ⟨host, build, []⟩ ks) k).2 =
+      mkTable ((if k.1 then build else host) ++ cfgFlags (rustArgs k)) := by
+  have h := run_ok rustArgs ⟨host, build, []⟩ ks ⟨host, build, []⟩ ⟨rfl, rfl, by intro k t hm; simp at hm⟩
+  have := (getCfgs_ok rustArgs ⟨host, build, []⟩ _ h k).2
+  simpa [expected, State.base] using this
+
+/-- …so a `cfg()` condition evaluated for that key has the value of its structure under exactly
+`{rustc cfgs} ∪ {that subproject's --cfg flags}` -/
+theorem cfg_eval_on_table (rustArgs : Key → List Line) (host build : List Line) (ks : List Key) (k : Key)
+    (e : IR) :
+    evalIR (getCfgs true rustArgs (run true rustArgs ⟨host, build, []⟩ ks) k).2 e =
+      evalIR (mkTable ((if k.1 then build else host) ++ cfgFlags (rustArgs k))) e := by
+  rw [cfg_table_depends_on_key_only]
+
+/-- the table obligation, re-checked on every run: no memoised function of cargo/interpreter.py mutates
+in place an object it got from another memoised callable -/
+theorem no_aliased_mutation_of_memoised_results :
+    MesonModel.Generated.CargoCache.aliasedMutations = [] := by decide
+
+/-- The variant without `.copy()` is refuted on two calls: after the table of subproject 0
+(`rust_args = --cfg foo`) has been built, `cfg(foo)` is true for subproject 1 whose configuration
+has no `foo`, and the compiler's cached list has grown. -/
+theorem no_copy_refuted :
+    let rustArgs : Key → List Line := fun k => if k = (false, 0) then ["--cfg".toList, "foo".toList] else []
+    let s := run false rustArgs ⟨["unix".toList], [], []⟩ [(false, 0)]
+    evalIR (getCfgs false rustArgs s (false, 1)).2 (.ident "foo".toList) = true ∧
+    evalIR (mkTable (["unix".toList] ++ cfgFlags (rustArgs (false, 1)))) (.ident "foo".toList) = false ∧
+    s.baseHost ≠ ["unix".toList] := by
+  decide
+
+example : mkTable ["unix".toList, "target_os=\"linux\"".toList, "feature=\"a\"".toList] =
+    [("unix".toList, []), ("target_os".toList, "linux".toList), ("feature".toList, ['a'])] := by decide
+
+end CfgTables
 
 end MesonModel.Props.C20
